@@ -121,6 +121,15 @@ def build(W):
     add("g+c", W.new("Sum", g, c))
     add("g*v", W.new("Product", g, v))
     add("cos(f)", W.new("Cos", f))
+    # the same shape of tree with another operator type inside, and operand lists that are prefixes of one another:
+    # what tells them apart below the root must not be their hashes
+    add("sin(f)*v", W.new("Product", W.new("Sin", f), v))
+    add("cos(f)*v", W.new("Product", W.new("Cos", f), v))
+    add("(f*c)*v", W.new("Product", W.new("Product", f, c), v))
+    add("sin(as_vector([f, c]))... list(f, c)", W.new("ufl.exprcontainers.ExprList", f, c))
+    add("list(f, c, f)", W.new("ufl.exprcontainers.ExprList", f, c, f))
+    add("sum over list: sin-free wrapper of list(f, c)", W.new("ufl.exprcontainers.ExprList", W.new("ufl.exprcontainers.ExprList", f, c), f))
+    add("wrapper of list(f, c, f)", W.new("ufl.exprcontainers.ExprList", W.new("ufl.exprcontainers.ExprList", f, c, f), f))
     add("sin(g)", W.new("Sin", g))
     add("c/f", W.new("Division", c, f))
     xx = W.geometric("SpatialCoordinate", m0)
